@@ -171,11 +171,26 @@ class Aff:
             return Lin.sym(("x", repr(v)))
         if v in self.memo:
             return self.memo[v]
-        self.memo[v] = Lin.sym(v)  # cycle guard
-        r = self._value(v)
+        inprog = self.__dict__.setdefault("_inprog", [])
+        if v in inprog:
+            # a cycle (a loop-carried value asked for while it is being described): it stands for itself here, and whatever is
+            # computed from this answer must not be remembered - asked again from outside the cycle it has a better description
+            self._cyc_hits = getattr(self, "_cyc_hits", set()) | {v}
+            return Lin.sym(v)
+        inprog.append(v)
+        try:
+            r = self._value(v)
+        finally:
+            inprog.pop()
         if r is None:
             r = Lin.sym(v)
-        self.memo[v] = r
+        hits = getattr(self, "_cyc_hits", set())
+        hits.discard(v)
+        if not (hits & set(inprog)):
+            # nothing this result depends on is still open
+            self.memo[v] = r
+            if not inprog:
+                self._cyc_hits = set()
         return r
 
     def _value(self, v):
